@@ -1,0 +1,32 @@
+//go:build verif
+
+package pipe
+
+// Contracts for gocv (see /verif/DESIGN.md). Comment-only; compiled only with
+// the build tag "verif". Model C is in /verif/spec/pipe_C.contracts.
+
+// the copy goroutine: at most n bytes reach the writer, then the rest is discarded until EOF, and only
+// then is the read end closed - the writing program never blocks and never sees EPIPE.
+//@ func pkg/pipe.NewPipe$1 props C08
+//@   arith int
+//@   requires r != nil && done != nil
+//@   assigns C.stage, C.cap, C.dst, C.src, C.drain_src
+//@   ensures C.stage == 2 && C.cap == n && C.dst == writer && C.src == iface(r) && C.drain_src == iface(r)
+//@   callsite Close: assert @C08 C.stage == 2
+
+//@ func go:pkg/pipe.NewPipe$1
+//@   assumed "the copy goroutine runs on its own; verified separately"
+//@   pure
+
+//@ func pkg/pipe.NewPipe props C08
+//@   arith int
+//@   assigns nothing
+//@   ensures result.2 == nil ==> result.0 != nil && result.1 != nil
+
+// a collector capped at max retains at most max+1 bytes
+//@ func pkg/pipe.NewBuffer props C08
+//@   arith int
+//@   requires max < 9223372036854775807
+//@   assigns nothing
+//@   ensures result.1 == nil ==> result.0 != nil && result.0.Max == max && result.0.W != nil && result.0.Buffer != nil
+//@   callsite NewPipe: assert @C08 n == max + 1 && writer == iface(buffer)
